@@ -103,27 +103,29 @@ type machine struct {
 	verdict      map[string]int      // week+body -> 200 / 400: the server's verdict on a report is stable
 	uploaderOf   map[*simrt.Task]int // uploader task -> round
 
-	round        int
-	roundMode    string    // independently parsed mode at the start of the round
-	roundAsof    time.Time // recorded opt-in date (zero if none/unparsable)
-	roundStart   time.Time
-	roundFiles   map[string]*modelFile
-	weekFiles    map[string][]*modelFile
-	hadReport    map[string]bool // weeks that had a report of any kind before the round
-	seenCalls    int
-	seenReqs     int
-	lastFsState  int
-	cleanSeq     int // requests before this index precede the latest gotelemetry clean
-	killsOn      bool
-	uplUnusable  bool
-	entropyFails bool
-	markerAtSend map[int]bool // request seq -> upload/<week>.json existed when it was sent
-	faultsOn     bool
-	sawKill      bool
-	reportMaker  map[string]*simrt.Task // week -> task that created local/<week>.json
-	allMakers    map[string][]*simrt.Task
-	localMaker   map[string]*simrt.Task
-	fatalStatus  map[*simrt.Task]map[string]int // uploader task -> week -> status it received
+	round           int
+	roundMode       string    // independently parsed mode at the start of the round
+	roundAsof       time.Time // recorded opt-in date (zero if none/unparsable)
+	roundStart      time.Time
+	roundFiles      map[string]*modelFile
+	weekFiles       map[string][]*modelFile
+	hadReport       map[string]bool // weeks that had a report of any kind before the round
+	seenCalls       int
+	seenReqs        int
+	lastFsState     int
+	cleanSeq        int // requests before this index precede the latest gotelemetry clean
+	killsOn         bool
+	uplUnusable     bool
+	reportedAtStart map[string]bool
+	startOf         map[*simrt.Task]time.Time // when each uploader was started
+	entropyFails    bool
+	markerAtSend    map[int]bool // request seq -> upload/<week>.json existed when it was sent
+	faultsOn        bool
+	sawKill         bool
+	reportMaker     map[string]*simrt.Task // week -> task that created local/<week>.json
+	allMakers       map[string][]*simrt.Task
+	localMaker      map[string]*simrt.Task
+	fatalStatus     map[*simrt.Task]map[string]int // uploader task -> week -> status it received
 }
 
 func (m *machine) fail(inv, format string, args ...any) {
@@ -160,6 +162,11 @@ func (r xReader) Read(p []byte) (int, error) {
 
 // snapshotFiles builds the model of the counter files present at the start of a round.
 func (m *machine) snapshotFiles() {
+	// weeks that have a report of any kind (local, ready, recorded as uploaded) when the round starts
+	m.reportedAtStart = reportWeeks(m.loc)
+	for w := range reportWeeks(m.upl) {
+		m.reportedAtStart[w] = true
+	}
 	m.roundFiles = map[string]*modelFile{}
 	m.weekFiles = map[string][]*modelFile{}
 	ents, _ := os.ReadDir(m.loc)
@@ -289,12 +296,22 @@ func scenarioMachine(c *hlib.RunCtx) *hlib.Violation {
 	m := &machine{c: c, s: s, t: t, prop: prop, tele: filepath.Join(c.Dir, teleName),
 		cfgByTask: map[*simrt.Task]*cfgVersion{}, dlFail: map[*simrt.Task]bool{}, xByTask: map[*simrt.Task][]float64{},
 		acked: map[string][]ack{}, stored: map[string]bool{}, verdict: map[string]int{}, uploaderOf: map[*simrt.Task]int{},
-		reportMaker: map[string]*simrt.Task{}, allMakers: map[string][]*simrt.Task{}, localMaker: map[string]*simrt.Task{}, fatalStatus: map[*simrt.Task]map[string]int{}}
+		reportMaker: map[string]*simrt.Task{}, allMakers: map[string][]*simrt.Task{}, localMaker: map[string]*simrt.Task{}, fatalStatus: map[*simrt.Task]map[string]int{}, startOf: map[*simrt.Task]time.Time{}}
 	m.loc = filepath.Join(m.tele, "local")
 	m.upl = filepath.Join(m.tele, "upload")
 	telemetry.Default = telemetry.NewDir(m.tele)
 	os.MkdirAll(m.loc, 0777)
 	os.WriteFile(filepath.Join(m.loc, "weekends"), []byte(fmt.Sprintf("%d\n", t.Draw(7))), 0666)
+	if t.Bool(1, 5) {
+		// weeks that were uploaded earlier and whose local copies the user has
+		// tidied away: only the uploaded marker is left
+		os.MkdirAll(m.upl, 0777)
+		for i, n := 0, 1+t.Draw(3); i < n; i++ {
+			w := refcal.Date(day - t.Draw(25))
+			os.WriteFile(filepath.Join(m.upl, w+".json"), []byte(`{"Week":"`+w+`","X":0.5,"Config":"v0.0.1"}`), 0666)
+		}
+		s.Probe("marker-only-weeks")
+	}
 	if t.Bool(1, 6) {
 		// the user asked for logs: uploaders write them here, and data-named files may lie around
 		os.MkdirAll(filepath.Join(m.tele, "debug"), 0777)
@@ -468,9 +485,29 @@ func (m *machine) setModeDirect(mode string, asof time.Time, noDate bool) {
 // runRound runs 1..4 concurrent uploaders to quiescence and applies the oracles.
 func (m *machine) runRound(hist *[]string) {
 	s, t := m.s, m.t
+	// Sometimes the round begins seconds before midnight (UTC) and its late
+	// uploaders start seconds after it: "today" differs between them.
+	straddle := t.Bool(1, 10)
+	var midnight time.Time
+	if straddle {
+		midnight = time.Unix((s.NowT().Unix()/86400+1)*86400, 0).UTC()
+		s.AdvanceTo(midnight.Add(-10 * time.Second))
+	}
 	m.roundMode, m.roundAsof, _, _ = parseMode(filepath.Join(m.tele, "mode"))
 	m.roundStart = s.NowT()
 	m.snapshotFiles()
+	if straddle {
+		// ... provided no file changes its status at that midnight (none ends
+		// then, none turns 21 days old then, all recorded ends are midnights)
+		for _, mf := range m.roundFiles {
+			if !mf.parseable {
+				continue
+			}
+			if mf.end.Equal(midnight) || mf.end.Unix()%86400 != 0 || mf.end.Add(21*24*time.Hour).Equal(midnight) {
+				straddle = false
+			}
+		}
+	}
 	m.hadReport = reportWeeks(m.loc)
 	for w := range reportWeeks(m.upl) {
 		m.hadReport[w] = true
@@ -533,6 +570,10 @@ func (m *machine) runRound(hist *[]string) {
 	if nup >= 2 && t.Bool(1, 6) {
 		late = 1 + t.Draw(nup-1)
 	}
+	if explicitStart.IsZero() && straddle && nup >= 2 && late == 0 {
+		late = 1
+	}
+	straddle = straddle && late > 0 && explicitStart.IsZero()
 	spawnUploader := func(i int) {
 		p := s.NewProc(fmt.Sprintf("uploader-r%d-%d", m.round, i), nil)
 		st := explicitStart
@@ -548,6 +589,7 @@ func (m *machine) runRound(hist *[]string) {
 			upload.Run(upload.RunConfig{TelemetryDir: m.tele, UploadURL: uploadURL, StartTime: st})
 		})
 		m.uploaderOf[tk] = m.round
+		m.startOf[tk] = s.NowT()
 		tasks = append(tasks, tk)
 	}
 	for i := 0; i < nup-late; i++ {
@@ -555,6 +597,10 @@ func (m *machine) runRound(hist *[]string) {
 	}
 	for i := nup - late; i < nup && m.viol == nil; i++ {
 		for k := 10 + t.Draw(150); k > 0 && m.viol == nil && s.Step(); k-- {
+		}
+		if straddle && i == nup-late {
+			s.AdvanceTo(midnight.Add(time.Duration(1+t.Draw(10)) * time.Second))
+			s.Probe("uploaders-straddle-midnight")
 		}
 		spawnUploader(i)
 		s.Probe("late-uploader")
